@@ -4,7 +4,8 @@ package main
 
 // Correspondence for C07: the PROVED floating-point tolerances checked on the real aggregator.
 //
-//	agg numerr <e> <bits>    samples (float64 bit patterns, ';'-joined) of magnitude <= 2^e, e <= 480
+//	agg numerr <e> <bits>    samples (float64 bit patterns, ';'-joined) of magnitude <= 2^e, -538 <= e <= 480
+//	                         (e < 0: data of small scale, the tolerance scales with it - num_f64_error_check_scaled_true)
 //
 // The real MatchNumerical is fed the samples; Mean() and Variance() are compared, in exact rational arithmetic
 // (math/big), with the exact mean / sample variance of the sample values:
@@ -50,7 +51,7 @@ func c07Within(got float64, exact, bound *big.Rat) int {
 
 func c07RunNumErr(f []string) string {
 	e, err := strconv.Atoi(f[2])
-	if err != nil || e < 0 {
+	if err != nil || e < -1074 {
 		return "bad-args"
 	}
 	var vals []float64
@@ -176,13 +177,19 @@ func c07NumErrVals(r *Rand, e, n int) []float64 {
 
 func c07NumErrCase(r *Rand, long bool) string {
 	e := 0
-	switch r.Intn(6) {
+	switch r.Intn(9) {
 	case 0:
 		e = 0
 	case 1:
 		e = 480
 	case 2:
 		e = r.Range(1, 479)
+	case 3: // small scales: readings well below 1 (the tolerance is u*M, u*M^2)
+		e = -r.Range(1, 40)
+	case 4:
+		e = -r.Range(41, 537)
+	case 5:
+		e = Pick(r, []int{-538, -537, -1, -10})
 	default:
 		e = r.Range(1, 64)
 	}
@@ -222,6 +229,10 @@ var c07NumErrCorpus = []string{
 	// one sample; two samples at the boundary with opposite signs
 	"agg numerr 0 3ff0000000000000",
 	"agg numerr 480 5df0000000000000;ddf0000000000000",
+	// small scale: 0.0001, 0.0002, 0.0003 within 2^-10; the smallest scale of the class; below it: outside
+	"agg numerr -10 3f1a36e2eb1c432d;3f2a36e2eb1c432d;3f33a92a30553261",
+	"agg numerr -538 1e50000000000000;9e50000000000000;1e4c000000000000",
+	"agg numerr -539 1e40000000000000",
 	// outside the class: a NaN, a magnitude above 2^e
 	"agg numerr 3 7ff8000000000001;3ff0000000000000",
 	"agg numerr 0 4000000000000000",
@@ -230,6 +241,10 @@ var c07NumErrCorpus = []string{
 func c07NumErrStats(f []string, st map[string]int) {
 	e, _ := strconv.Atoi(f[2])
 	switch {
+	case e < -40:
+		st["numerr.e<-40"]++
+	case e < 0:
+		st["numerr.-40<=e<0"]++
 	case e == 0:
 		st["numerr.e=0"]++
 	case e == 480:
